@@ -1,5 +1,5 @@
 //! xmlgen: case generators of the xmlfile kind (all randomness from one seed).
-//! Streams (`--stream`): dom unknown opts deep illegal uid (DOM cases), mut hand foreign (text cases), mig (C15: both).
+//! Streams (`--stream`): dom unknown opts deep illegal uid bin (DOM cases; bin = the quantifier of C06), mut hand foreign (text cases), mig (C15: both).
 use crate::rng::Rng;
 use crate::util::*;
 use crate::val::{self, hex};
@@ -158,6 +158,8 @@ pub struct DomCfg {
     pub legal: bool,
     pub exact_types: bool,
     pub chain: u64,
+    /// only database classes and canonical, serializing, non-migrating properties (the quantifier of C06)
+    pub strict: bool,
 }
 
 pub fn gen_forest(rng: &mut Rng, cfg: &DomCfg) -> Forest {
@@ -190,7 +192,16 @@ pub fn gen_forest(rng: &mut Rng, cfg: &DomCfg) -> Forest {
             }
         };
         let mut props: Vec<(String, Variant)> = Vec::new();
-        let descs = class_props(&class);
+        let mut descs = class_props(&class);
+        if cfg.strict {
+            descs.retain(|p| {
+                matches!(&p.kind, PropertyKind::Canonical { serialization: PropertySerialization::Serializes })
+                    && p.name != "Name"
+                    && !matches!(&p.data_type, DataType::Value(VariantType::Region3 | VariantType::Region3int16 | VariantType::Vector2int16))
+            });
+        } else if rng.chance(97) {
+            descs.retain(|p| p.name != "Name");
+        }
         let k = if cfg.chain > 0 { rng.below(2) } else { rng.below(7) };
         for _ in 0..k {
             if !descs.is_empty() && !rng.chance(cfg.unknown_prop_pct) {
@@ -213,7 +224,7 @@ pub fn gen_forest(rng: &mut Rng, cfg: &DomCfg) -> Forest {
         props.retain(|(k, _)| seen.insert(k.clone()));
         f.nodes.push(Node { label: i, parent, class, name, props });
     }
-    f.roots = match rng.below(20) {
+    f.roots = match if cfg.strict { 19 } else { rng.below(20) } {
         0 => vec![rng.range(1, n)],
         1 => {
             let mut v: Vec<u64> = f.nodes.iter().filter(|x| x.parent == 0).map(|x| x.label).collect();
@@ -251,12 +262,13 @@ fn plant_unique_ids(rng: &mut Rng, f: &mut Forest) {
 
 pub fn gen_dom_case(rng: &mut Rng, stream: &str) -> Vec<String> {
     let cfg = match stream {
-        "unknown" => DomCfg { max_nodes: 8, known_class_pct: 50, unknown_prop_pct: 50, legal: true, exact_types: false, chain: 0 },
-        "opts" => DomCfg { max_nodes: 6, known_class_pct: 80, unknown_prop_pct: 20, legal: true, exact_types: false, chain: 0 },
-        "deep" => DomCfg { max_nodes: 0, known_class_pct: 90, unknown_prop_pct: 10, legal: true, exact_types: true, chain: rng.range(50, 300) },
-        "illegal" => DomCfg { max_nodes: 4, known_class_pct: 80, unknown_prop_pct: 20, legal: false, exact_types: true, chain: 0 },
-        "uid" => DomCfg { max_nodes: 6, known_class_pct: 100, unknown_prop_pct: 0, legal: true, exact_types: true, chain: 0 },
-        _ => DomCfg { max_nodes: 12, known_class_pct: 92, unknown_prop_pct: 8, legal: true, exact_types: rng.chance(70), chain: 0 },
+        "unknown" => DomCfg { max_nodes: 8, known_class_pct: 50, unknown_prop_pct: 50, legal: true, exact_types: false, chain: 0, strict: false },
+        "opts" => DomCfg { max_nodes: 6, known_class_pct: 80, unknown_prop_pct: 20, legal: true, exact_types: false, chain: 0, strict: false },
+        "deep" => DomCfg { max_nodes: 0, known_class_pct: 90, unknown_prop_pct: 10, legal: true, exact_types: true, chain: rng.range(50, 300), strict: false },
+        "illegal" => DomCfg { max_nodes: 4, known_class_pct: 80, unknown_prop_pct: 20, legal: false, exact_types: true, chain: 0, strict: false },
+        "bin" => DomCfg { max_nodes: 8, known_class_pct: 100, unknown_prop_pct: 0, legal: true, exact_types: true, chain: 0, strict: true },
+        "uid" => DomCfg { max_nodes: 6, known_class_pct: 100, unknown_prop_pct: 0, legal: true, exact_types: true, chain: 0, strict: false },
+        _ => DomCfg { max_nodes: 12, known_class_pct: 92, unknown_prop_pct: 8, legal: true, exact_types: rng.chance(70), chain: 0, strict: false },
     };
     let mut f = gen_forest(rng, &cfg);
     if stream == "uid" {
@@ -413,7 +425,7 @@ pub fn gen_text_case(rng: &mut Rng, stream: &str, i: u64) -> Vec<String> {
         }
         _ => {
             // mutated output of the real serializer
-            let cfg = DomCfg { max_nodes: 5, known_class_pct: 90, unknown_prop_pct: 15, legal: true, exact_types: rng.chance(80), chain: 0 };
+            let cfg = DomCfg { max_nodes: 5, known_class_pct: 90, unknown_prop_pct: 15, legal: true, exact_types: rng.chance(80), chain: 0, strict: false };
             let f = gen_forest(rng, &cfg);
             let (dom, map) = build_dom(&f, None);
             let roots: Vec<Ref> = f.nodes.iter().filter(|n| n.parent == 0).map(|n| map[&n.label]).collect();
